@@ -2,6 +2,7 @@ SPECIFICATION Spec
 CONSTANTS Routers <- AllRouters
           SyncRouters = {"eth", "bsc", "ont", "cosmos"}
           Gen = {"g1", "g2", "ghi"}
+          Deg = {"gdeg"}
           Bad = {"bad"}
           Shape <- ShapeGuard
           D = 4
